@@ -126,6 +126,19 @@ class TSRun:
         return walker_state_glue(callee)
 
 
+def assume_loops_ran(t: T) -> T:
+    """t with every phi(n > 0 ? <loop over n> : <before>) replaced by the arm in which the loop ran (see
+    Judge._taken_arm): the reading of a block function under the standing assumption of at least one step"""
+    from ..symex import subterms as _sub, substitute as _subst
+    m = {}
+    for x in _sub(t):
+        if x.op == "phi":
+            y = Judge._taken_arm(x)
+            if y is not x:
+                m[x] = y
+    return _subst(t, m) if m else t
+
+
 class Judge:
     def __init__(self, run: TSRun):
         self.run = run
@@ -230,10 +243,34 @@ class Judge:
         return crosses(t)
 
     # --------------------------------------------------------- judgement
+    @staticmethod
+    def _taken_arm(t: T) -> T:
+        """phi(n > 0 ? <result of a loop over n steps> : <state before>): the loop guarded against a zero trip count.
+        Scans are judged under the assumption of at least one iteration (what they establish, they establish); the same
+        assumption selects the arm in which the loop ran."""
+        from ..symex import subterms as _sub
+        for _ in range(4):
+            if t.op == "phi" and len(t.args) == 3 and isinstance(t.args[0], T):
+                c = t.args[0]
+                n_ = None
+                if c.op == "cmp" and len(c.args) == 3:
+                    op_, a_, b_ = c.args
+                    if op_ == ">" and b_.op == "const" and b_.args[0] == 0:
+                        n_ = a_
+                    elif op_ == ">=" and b_.op == "const" and b_.args[0] == 1:
+                        n_ = a_
+                if n_ is not None and any(x.op == "call" and match_scan(x) is not None and any(y is n_ for y in _sub(x))
+                                          for x in _sub(t.args[1])):
+                    t = t.args[1]
+                    continue
+            break
+        return t
+
     def coherent(self, D: T, W: T, depth: int = 0) -> bool:
         if depth > 40:
             return False
-        D = strip_wrappers(D)
+        D = strip_wrappers(self._taken_arm(strip_wrappers(D)))
+        W = self._taken_arm(W)
         if (D.uid, W.uid) in self.facts:
             return True
         for (du, wu) in self.facts:
@@ -283,7 +320,8 @@ class Judge:
 
     def fcoherent(self, D: T, W: T, N: T) -> bool:
         """Free projection: D == trial.calc_overlap(W) * norms with the dict's own norms N."""
-        D = strip_wrappers(D)
+        D = strip_wrappers(self._taken_arm(strip_wrappers(D)))
+        W, N = self._taken_arm(W), self._taken_arm(N)
         for fd, fw, fn in self._fft:
             if fd is D and self.W_eq(fw, W) and fn is N:
                 return True
@@ -297,7 +335,8 @@ class Judge:
     def gcoherent(self, G: T, W: T, depth: int = 0) -> bool:
         if depth > 40:
             return False
-        G = strip_wrappers(G)
+        G = strip_wrappers(self._taken_arm(strip_wrappers(G)))
+        W = self._taken_arm(W)
         for fg, fw in self._gfact_terms:
             if fg is G and self.W_eq(fw, W):
                 return True
